@@ -15,7 +15,7 @@ PROPERTY_ID = 'C18'
 RULE = ('Hypothesis draws the state dimension (1..3), snapshot count m (6..14), product bases with a constant plus 1..3 further '
         'functions per mode (1..4 modes, all differentiable families), index-set pairs (lagged windows, random subsets, |x| >= 2) '
         'singly and as lists of 2..3 pairs, the HOSVD threshold (<= 1e-10, so that only the documented 1e-3 cut of the reduced step '
-        'acts) and the variant (HOSVD / HOCUR). Oracle: dense EDMD K = U S^-1 V^H Psi_y^T with the 1e-3 relative cut on the '
+        'acts) the variant (HOSVD / HOCUR) and the form of the snapshot matrix (float, strided view, Fortran order; integer dtype for HOSVD). Oracle: dense EDMD K = U S^-1 V^H Psi_y^T with the 1e-3 relative cut on the '
         'singular values of Psi_x: returned values = real parts of its non-zero eigenvalues, ordered by |lambda - 1|; for real '
         'simple spectra K xi_k = lambda_k xi_k (scale-free); batch call == single calls (eigenvalues and dense eigentensors); '
         'returned tensors consistent. Non-trivial: a list of pairs, random-subset index sets, >= 2 modes, rank-deficient Psi_x, or '
@@ -25,7 +25,10 @@ ASSUMPTIONS = [
     'guard bands (cases discarded otherwise): no singular-value ratio of Psi_x within a factor 3 of the 1e-3 cut; no singular-value '
     'ratio of an unfolding of Psi in (1e-13, 1e-7); eigenvalues pairwise separated by 1e-4 max|lambda| for the eigen-equation clause',
     'index sets have at least two snapshots and Psi has rank >= 2 (the routine squeezes singleton axes)',
-    'HOCUR variant: max_rank >= m and the same conditioning guard as C15',
+    'HOCUR variant: max_rank >= m, the same conditioning guard as C15, floating-point data (integer-valued snapshots make the '
+    'sampled crosses exactly singular: outside the domain of a cross approximation)',
+    'the eigenvector matrix of the dense reduced matrix has condition number <= 1e5 (Bauer-Fike: otherwise eigenvalues are not '
+    'determined to 1e-6; discarded)',
 ]
 
 
@@ -53,8 +56,12 @@ def amuset_case(draw):
             xi = draw(st.lists(st.integers(0, m - 1), min_size=n, max_size=n, unique=True))
             yi = draw(st.lists(st.integers(0, m - 1), min_size=n, max_size=n, unique=True))
         pairs.append([xi, yi, kind])
-    return {'d': d, 'm': m, 'phi': phi, 'pairs': pairs, 'seed': draw(gen.SEED), 'variant': draw(st.sampled_from(['hosvd', 'hosvd', 'hocur'])),
-            'threshold': draw(st.sampled_from([0, 1e-12, 1e-10])), 'as_list': draw(st.booleans())}
+    variant = draw(st.sampled_from(['hosvd', 'hosvd', 'hocur']))
+    # integer-valued snapshots make Psi exactly degenerate (repeated snapshots, zero function values): fine for the HOSVD
+    # variant, outside the domain of the cross approximation (see C15), which therefore only gets the floating-point forms
+    form = draw(c15.DATA_FORM if variant == 'hosvd' else st.sampled_from(['float', 'float', 'strided', 'fortran']))
+    return {'d': d, 'm': m, 'phi': phi, 'pairs': pairs, 'seed': draw(gen.SEED), 'variant': variant,
+            'threshold': draw(st.sampled_from([0, 1e-12, 1e-10])), 'as_list': draw(st.booleans()), 'data_form': form}
 
 
 def reference(Psi, xi, yi):
@@ -67,7 +74,11 @@ def reference(Psi, xi, yi):
     k = int(np.sum(ratio > 1e-3))
     U, s, Vh = U[:, :k], s[:k], Vh[:k]
     Mred = Vh @ Py.T @ U / s
-    lam = np.linalg.eigvals(Mred)
+    lam, W = np.linalg.eig(Mred)
+    # Bauer-Fike guard: eigenvalues of a (nearly) defective reduced matrix move by cond(W) * rounding; they cannot be
+    # compared at 1e-6 (integer-valued data produce exactly defective zero eigenvalues)
+    if np.linalg.cond(W) > 1e5:
+        return None
     K = (U / s) @ Vh @ Py.T
     return lam, K, k
 
@@ -121,6 +132,10 @@ def body(c):
         lab.add('subset_indices')
     if len(nmodes) >= 2:
         lab.add('multi_mode')
+    if c.get('data_form', 'float') != 'float':
+        lab.add('data_' + c['data_form'])
+    if any(s_['family'] in c15.USER_FAMS for f in c['phi'] for s_ in f):
+        lab.add('user_defined_function')
     for j, ((lam, K, k), ev, et) in enumerate(zip(refs, evs, ets)):
         ev = np.asarray(ev)
         lmax = max(np.max(np.abs(lam)), 1e-300)
